@@ -57,7 +57,7 @@ def run_group(case, scratch=None, keep=False):
         for _ in range(case.get("repeat", 1)):
             rc, out, err, to = C.fclones(["group"] + args + ["-f", "json"], scratch, cwd=cwd,
                                          env_extra=case.get("env"), stdin=C.b(case.get("stdin", "")),
-                                         timeout=case.get("timeout", 120))
+                                         timeout=case.get("timeout", 120), unpriv=bool(case.get("unpriv")))
             run = {"rc": rc, "err": err.decode("utf-8", "replace"), "timeout": to, "report": None}
             if rc == 0 and not to:
                 try:
